@@ -61,14 +61,20 @@ GetitemCases ==
             : off \in 0..(Len(sh) - 1), i \in 0..(MaxSize - 1)} : sh \in {s \in Shapes : Len(s) >= 1}}
 MatmulCases ==
   {[kind |-> "bin", op |-> [n |-> "matmul", p |-> <<>>], sh |-> a, sh2 |-> b, dt |-> 0, dt2 |-> 0]
-     : a \in {s \in Shapes : Len(s) \in {1, 2}}, b \in {s \in Shapes : Len(s) \in {1, 2}}}
+     : a \in {s \in Shapes : Len(s) >= 1}, b \in {s \in Shapes : Len(s) >= 1}}
+\* contraction axes agree and the batch axes broadcast (the exact VALUE is defined in the algebra
+\* only up to matrices; beyond that the catalogue states the static shape only)
+ValidMatmul(c) ==
+  LET ra == Len(c.sh)  rb == Len(c.sh2) IN
+  /\ c.sh[ra] = (IF rb = 1 THEN c.sh2[1] ELSE c.sh2[rb - 1])
+  /\ (ra >= 2 /\ rb >= 2) => BroadcastShape(SubSeq(c.sh, 1, ra - 2), SubSeq(c.sh2, 1, rb - 2)) # <<-1>>
 
 Cases ==
   {c \in UnaryCases : ValidUn(c)} \cup SliceCases
   \cup {c \in ReshapeCases : Size(c.op.p) = Size(c.sh)} \cup PointwiseUn
   \cup {c \in BinCases : ValidBin(c)}
   \cup {c \in GetitemCases : c.i < c.sh[c.op.p[1] + 1]}
-  \cup {c \in MatmulCases : c.sh[Len(c.sh)] = c.sh2[1]}
+  \cup {c \in MatmulCases : ValidMatmul(c)}
 
 Init == g \in Cases
 Next == UNCHANGED g
